@@ -67,7 +67,24 @@ pub fn c13_obs_pair(a: &[u8], b: &[u8]) -> String {
 		Guard::Ok(list) => format!("{:?}", list),
 		Guard::Panic(pm) => format!("panic: {pm}"),
 	};
-	format!("cmp[{cmp}] cross[{cross}] resolve[{res}] {rel}")
+	// the same comparison component by component (==, !=, cmp, partial_cmp and three hashers)
+	let (pa, pb) = (syntax::split(a), syntax::split(b));
+	let mut comps = String::new();
+	let pairs: [(Kind, Option<&Vec<u8>>, Option<&Vec<u8>>); 4] = [
+		(Kind::Authority, pa.authority.as_ref(), pb.authority.as_ref()),
+		(Kind::Path, Some(&pa.path), Some(&pb.path)),
+		(Kind::Query, pa.query.as_ref(), pb.query.as_ref()),
+		(Kind::Fragment, pa.fragment.as_ref(), pb.fragment.as_ref()),
+	];
+	for (k, x, y) in pairs {
+		if let (Some(x), Some(y)) = (x, y) {
+			match c07_pair_obs(k, x, y) {
+				Guard::Ok(o) => comps.push_str(&format!(" {}[{:?}]", k.name(), o)),
+				Guard::Panic(pm) => comps.push_str(&format!(" {}[panic: {pm}]", k.name())),
+			}
+		}
+	}
+	format!("cmp[{cmp}] cross[{cross}] components[{comps}] resolve[{res}] {rel}")
 }
 
 /// Observation of one mutation (given as JSON so that both families decode the same op).
